@@ -179,3 +179,17 @@ def check(P: Project, R: Report) -> None:
             lv = [s_ for s_ in walk_local(rt.node) if isinstance(s_, ast.Assign) and len(s_.targets) == 1 and ast.unparse(s_.targets[0]) == c.func.value.id]
             if lv and tab in ast.unparse(lv[-1].value):
                 R.ob("R3", "the per-request stream receives the routed message itself", bool(c.args) and ast.unparse(c.args[0]) == mp, f"{rt.module.rel}:{c.lineno}", f"sends `{ast.unparse(c.args[0]) if c.args else ''}`")
+
+    # ------------------------------------------------------------------ R5: the transport hands every response to the shared stream
+    R.rule("R5", "every response the child wrote reaches the shared read stream: the stdio router delivers a message with an id on the main stream exactly once on every path, a full stream included (the routing obligation of C05-R4, read here for the waiters: a response dropped in the transport is one no caller can receive)")
+    from . import c05
+
+    sub = Report(prop="C05", tier=R.tier)
+    c05.check(P, sub)
+    n5 = 0
+    for o in sub.obligations:
+        if o.rule == "R4" and (o.key.startswith("message with id") or o.key.startswith("a full main stream")):
+            n5 += 1
+            R.ob("R5", "stdio router: " + o.key, o.ok, o.where, o.detail)
+    R.need(n5 >= 1, "anchor: the routing obligations for messages with an id were not produced")
+
